@@ -152,6 +152,15 @@ def verus_phase(pid, P, tier, seed, t0):
         open(path, 'w').write(text)
         r = run_verus(path, rlimit=P.get('rlimit', 60))
         j = r['json']
+    def _resource_limited(rr):
+        return any(d.get('level') == 'error' and ('rlimit' in d['message'].lower() or 'resource limit' in d['message'].lower())
+                   for d in rr['diags'])
+    # a resource-limit hit is not a verdict: retry with a larger budget and another solver seed before giving up (exit 2)
+    for sd, mult in ((7, 3), (23, 8)):
+        if j is None or r['rc'] == 124 or not _resource_limited(r):
+            break
+        r = run_verus(path, seed=sd, rlimit=P.get('rlimit', 60) * mult)
+        j = r['json']
     if r['rc'] == 124:
         raise Undecided('verus timeout')
     if j is None:
